@@ -365,6 +365,10 @@ func c08R4(c *Ctx) {
 					if (r.op == relLT || r.op == relLE) && isLenMinusOne(r.x) {
 						okGuard = r.op == relLT
 					}
+					// index >= len(args)
+					if r.op == relGE && isLenCall(r.y) || r.op == relLE && isLenCall(r.x) {
+						okGuard = true
+					}
 				}
 				c.check(okGuard, "R4", key+" null-arm", p.InstrPos(mu), "missing arguments are bound to null under index > len(args)-1", "the null binding is not guarded by index > len(args)-1")
 				return
@@ -435,4 +439,13 @@ func isLenMinusOne(v ssa.Value) bool {
 // inSameLoop: a and b lie on a common cycle (b can reach a again).
 func inSameLoop(a, b *ssa.BasicBlock) bool {
 	return reachableFrom(b.Succs, nil)[a]
+}
+
+func isLenCall(v ssa.Value) bool {
+	call, ok := v.(*ssa.Call)
+	if !ok {
+		return false
+	}
+	bi, ok := call.Call.Value.(*ssa.Builtin)
+	return ok && bi.Name() == "len"
 }
